@@ -1,6 +1,7 @@
 (* Model of integer width selection:
    - Constraint::integer_constraints  (intermediate/constraints.rs) : head hand-modelled, ladder = Gen.T06
-   - Integer::int_type                (intermediate/types.rs)       : fold with max_restrictive (Gen.T07)
+   - Constraint::integer_type_of      (intermediate/constraints.rs) : Unbounded when the last constraint is extensible, else
+                                                                       fold with max_restrictive (Gen.T07); Integer::int_type and the linker call it
    - Rasn::int_type_token             (generator/rasn/utils.rs)     : option prologue hand-modelled, ladder = Gen.T06 *)
 From Coq Require Import ZArith List Bool.
 Require Import RasnV.Model.Base RasnV.Gen.T06 RasnV.Gen.T07.
@@ -27,8 +28,18 @@ Definition integer_constraints (c : int_constraint) : int_ty :=
   | COther => integer_constraints_ladder i128_max i128_min false
   end.
 
+(* Constraint::is_extensible: a marker on the element set as a whole or on its only element *)
+Definition c_extensible (c : int_constraint) : bool :=
+  match c with CRange _ _ ext sext | CSingle _ ext sext => ext || sext | COther => false end.
+
+(* the last of the serial constraints (X.680 50.8: it decides about extensibility) *)
+Definition last_extensible (cs : list int_constraint) : bool :=
+  match rev cs with c :: _ => c_extensible c | [] => false end.
+
+(* Constraint::integer_type_of *)
 Definition int_type (cs : list int_constraint) : int_ty :=
-  fold_left (fun acc c => max_restrictive (integer_constraints c) acc) cs Unbounded.
+  if last_extensible cs then Unbounded
+  else fold_left (fun acc c => max_restrictive (integer_constraints c) acc) cs Unbounded.
 
 Definition int_type_token (omin omax : option Z) (ext : bool) : int_ty :=
   match omin, omax with
